@@ -51,6 +51,16 @@ PFAMILY = [
 ]
 
 
+def vsize_of(view, env):
+    from harness.algebras import vsize
+    return vsize(view, env)
+
+
+def all_names(env):
+    from harness.algebras import all_var_names
+    return all_var_names(env)
+
+
 @st.composite
 def param_family_case(draw):
     """models that differ ONLY in their parameter values: same names, same structure, no literal constants"""
@@ -99,6 +109,37 @@ def wide_family_case(draw):
 
 
 @st.composite
+def view_family_case(draw, which=None):
+    """models over DIFFERENT views of one vector / matrix whose derived names and sizes coincide (the name of a slice ignores
+    its step, the name of a row view its column range): x[0:4:2] vs x[0:4:3], x[::-1] vs x[0:n], A[0,0:2] vs A[0,1:3]"""
+    which = which or draw(st.sampled_from(["step", "rev", "row"]))
+    if which == "row":
+        env = {"scalars": [], "vectors": [], "matrices": [{"name": "A", "r": 2, "c": 3, "sym": False}], "params": []}
+        a = draw(st.sampled_from([0, 1]))
+        view = ["row", ["mvar", "A"], 0, a, a + 2, None]
+    else:
+        n = 4 if which == "step" else draw(st.sampled_from([3, 4]))
+        env = {"scalars": [], "vectors": [{"name": "x", "n": n}], "matrices": [], "params": []}
+        if which == "step":
+            view = ["slice", ["vvar", "x"], 0, 4, draw(st.sampled_from([2, 3]))]
+        else:
+            view = ["slice", ["vvar", "x"], None, None, -1] if draw(st.booleans()) else ["slice", ["vvar", "x"], 0, n, None]
+    k = vsize_of(view, env)
+    recipe = draw(st.sampled_from([
+        ["lincomb", [1, 7, -2, 3][:k], view, "c@x"],
+        ["vsum", ["vpow", view, 2]],
+        ["bin", "+", ["vsum", view], ["dotself", view, "dot"]],
+    ]))
+    order = all_names(env)
+    pts = draw(gen.points(order, k=2))
+    part = draw(st.sampled_from(["c01", "c01", "c03"]))
+    if part == "c01":
+        return [part, {"env": env, "expr": recipe, "order": order, "stratum": "decl", "points": pts, "config": "default"}]
+    return [part, {"env": env, "exprs": [recipe], "strata": ["general"], "order": order, "vstratum": "decl", "points": pts,
+                   "config": "default"}]
+
+
+@st.composite
 def bound_family_case(draw):
     """tiny LPs that differ ONLY in declared bounds: `x >= 0` written as a bare comparison, x absent from the objective"""
     lbx = draw(st.sampled_from([None, -5, 0, -1]))
@@ -130,7 +171,12 @@ def cases(draw):
         pfam = draw(st.integers(0, 2)) == 0
         bfam = (not pfam) and draw(st.integers(0, 3)) == 0
         wfam = (not pfam) and (not bfam) and draw(st.integers(0, 4)) == 0
+        vfam = (not pfam) and (not bfam) and (not wfam) and draw(st.integers(0, 3)) == 0
+        vwhich = draw(st.sampled_from(["step", "rev", "row"]))
         for _ in range(k + 1):
+            if vfam and draw(st.integers(0, 3)) > 0:
+                items.append(draw(view_family_case(vwhich)))
+                continue
             if wfam and draw(st.booleans()):
                 items.append(draw(wide_family_case()))
                 continue
